@@ -832,7 +832,11 @@ class MarkdownNormalizer(Renderer):
         lines.append(f"| {' | '.join(normalized_delimiters)} |\n")
         for row in body:
             lines.append(self.render(row))
-        return "".join(lines)
+        # Every line of the table carries the prefix of the enclosing container (a table
+        # inside a block quote is otherwise written outside of it).
+        result = self._prefix + lines[0] + "".join(self._second_prefix + line for line in lines[1:])
+        self._prefix = self._second_prefix
+        return result
 
     def render_table_row(self, element: gfm_elements.TableRow) -> str:
         """Render a row within a GFM table."""
